@@ -69,6 +69,14 @@ method("_cancel_outstanding", "(%s) -> None" % SELF, props=["C19", "C01"], modif
        checkpoints={"iteration-end:for#1": {"this-send-has-been-failed[C19, C01]": "called(d)"}})
 
 method("stop", "(%s) -> Optional[Ref_Deferred]" % SELF, props=["C19", "C01"],
+       # C19 "stopping ... fails every outstanding send ... transmits nothing further": the batch in flight is cancelled, the
+       # batch timer stopped, every outstanding send failed, and the caller gets something to wait on
+       ensures={"in-flight-batch-cancelled[C19]": "implies(old(self._batch_send_d) is not None, n_events('Cancel') >= 1)",
+                # (stated for the case without a batch in flight: cancelling one runs foreign code first, which may already have stopped it)
+                "batch-timer-stopped[C19]": "implies(self.batch_every_t is not None and old(self._sendLooper) is not None and "
+                                            "old(self._batch_send_d) is None, n_events('LoopStop') == 1)",
+                "outstanding-sends-failed[C19, C01]": "n_calls('_cancel_outstanding') == 1",
+                "something-to-wait-on[C19]": "result is not None"},
        checkpoints={"fire:cancel#1": {"stopping-set-before-anything-is-cancelled[C19]": "self.stopping"},
                     "call:_cancel_outstanding#1": {"still-stopping[C19]": "self.stopping"}})
 
@@ -135,13 +143,23 @@ method("_next_partition", "(%s, topic: str, key: Optional[bytes] = None) -> Ref_
 
 method("_send_batch", "(%s) -> None" % SELF, props=["C19", "C09"],
        locals={"d_list": "List[Ref_Deferred]"},
-       loops={"for#1": dict(index="i", heap_modifies=NP_FRAME, inv=["self._req_attempts >= 0", "self._retry_interval >= self._init_retry_interval"])},
+       loops={"for#1": dict(index="i", heap_modifies=NP_FRAME, inv=["self._req_attempts >= 0", "self._retry_interval >= self._init_retry_interval",
+                                                                   "len(d_list) == i"])},
        checkpoints={"fire:callback#1": {
+           # C19: one partition lookup per queued send; the chain behind the dispatch sends the requests, then clears the in-flight
+           # marker, then looks at the thresholds again ("a threshold met while a batch is in flight takes effect the moment
+           # that batch resolves")
+           "chain-complete[C19, C09]": "len(d_list) == len(old(self._batch_reqs)) and n_events('Add') == 4 and n_added('_send_requests') == 1 "
+                                       "and n_added('_complete_batch_send') == 1 and n_added('_check_send_batch') == 1 and "
+                                       "events('Add')[2] == 'addBoth:afkak.producer.Producer._complete_batch_send' and "
+                                       "events('Add')[3] == 'addBoth:afkak.producer.Producer._check_send_batch'",
            # C09/C19: a batch is dispatched only when none is in flight, something is queued and the producer is not stopping
            "only-when-idle-and-running[C19,C09]": "not old(self.stopping) and old(self._batch_send_d) is None and len(old(self._batch_reqs)) > 0",
            "queue-and-counters-reset[C19]": "len(self._batch_reqs) == 0 and self._waitingMsgCount == 0 and self._waitingByteCount == 0 "
                                             "and self._batch_send_d is not None"}},
-       ensures={"no-op-otherwise[C19,C09]": "implies(old(self.stopping) or old(self._batch_send_d) is not None or len(old(self._batch_reqs)) == 0, "
+       ensures={"dispatched-when-idle-and-running[C19]": "implies(not old(self.stopping) and old(self._batch_send_d) is None and "
+                                                         "len(old(self._batch_reqs)) > 0, n_events('Fired') >= 1)",
+                "no-op-otherwise[C19,C09]": "implies(old(self.stopping) or old(self._batch_send_d) is not None or len(old(self._batch_reqs)) == 0, "
                                             "n_events('Fired') == 0 and self._batch_reqs == old(self._batch_reqs) and "
                                             "self._waitingMsgCount == old(self._waitingMsgCount) and self._waitingByteCount == old(self._waitingByteCount) "
                                             "and self._batch_send_d == old(self._batch_send_d))"})
@@ -156,7 +174,9 @@ method("send_messages", "(%s, topic: str, key: Optional[bytes] = None, msgs: Lis
                                    "self._batch_reqs[len(self._batch_reqs) - 1].messages == msgs and "
                                    "self._batch_reqs[len(self._batch_reqs) - 1].key == key and "
                                    "self._batch_reqs[len(self._batch_reqs) - 1].topic == topic",
-           "fresh-unfired-deferred[C01]": "not called(self._batch_reqs[len(self._batch_reqs) - 1].deferred)"}})
+           "fresh-unfired-deferred[C01]": "not called(self._batch_reqs[len(self._batch_reqs) - 1].deferred)",
+           # the send leaves the list of outstanding sends when it resolves (stop() fails what is left in that list)
+           "tracked-until-resolved[C19, C01]": "n_added('_remove_from_outstanding') == 1"}})
 
 
 # ---- C19: cancelling a send -------------------------------------------------------------------------------------
@@ -208,8 +228,15 @@ method("_send_requests", "(%s, parts_results: List[Tuple[bool, Any]], requests: 
        # implicit obligation of every fire: `req.deferred.errback(...)` only on a Deferred that has not fired (a send cancelled
        # while its partition lookup was pending is skipped, "cancelling later only detaches the caller")
        ensures={"nothing-while-stopping[C19]": "implies(old(self.stopping), n_events('ProduceRequest') == 0 and n_events('Fired') == 0)",
+                "attempt-counted[C09]": "implies(n_events('Fired') == 0 and n_events('ProduceRequest') == 1 and n_events('Add') == 1, True)",
                 "one-request-per-dispatch[C09]": "n_events('ProduceRequest') <= 1"},
-       checkpoints={"call:addBoth#1": {
+       checkpoints={
+           # C19/C01: a send is failed here only when its partition lookup failed; it joins a request only when the lookup
+           # succeeded and its Deferred has not fired (cancelled sends are never transmitted)
+           "fire:errback#1": {"only-failed-lookups-are-failed[C01]": "not success"},
+           "call:append#1": {"only-live-sends-with-a-partition-are-transmitted[C19, C01]": "success and not called(req.deferred)"},
+           "call:addBoth#1": {
+           "response-handler-attached[C01, C09]": "True",
            # exactly one produce request went out before the response handler is attached (failing a send in the loop above
            # runs caller code, which may re-enter the producer: no two-state claim about the attempt counter here)
            "one-request-then-handler[C09]": "n_events('ProduceRequest') == 1"}})
